@@ -12,7 +12,7 @@
    sign choices realise the large-arc / sweep flags (needs cos/sin of atan2 and the sign analysis
    of the cross product). *)
 From Coq Require Import ZArith Reals Lra List Bool String.
-From Pico Require Import Num G_geom G_transform G_arc Arc E1_affine E4_bezier E4_arc E4_center.
+From Pico Require Import Num G_geom G_transform G_arc Arc E1_affine E4_bezier E4_arc E4_center E4_sweep.
 Import ListNotations.
 Local Open Scope R_scope.
 
@@ -113,6 +113,14 @@ Theorem C12_centre_is_back_mapped (self : @EllipticalArc ROps) cp :
                                               (EllipticalArc_rotation self * (PI / 180))) q.
 Proof. exact (center_is_back_mapped self cp). Qed.
 Print Assumptions C12_centre_is_back_mapped.
+
+(* the swept angle has the sign the sweep flag selects and is less than a full turn (atan2 ranges over (-pi, pi]) *)
+Theorem C12_sweep_flag_selects_the_direction (self : @EllipticalArc ROps) cp :
+  EllipticalArc_end_to_center_parametrization ROps RMath self = Ok cp ->
+  (EllipticalArc_sweep self <> 0 -> 0 <= CenterParametrization_theta_arc cp < 2 * PI) /\
+  (EllipticalArc_sweep self = 0 -> - (2 * PI) < CenterParametrization_theta_arc cp <= 0).
+Proof. exact (sweep_selects_the_sign self cp). Qed.
+Print Assumptions C12_sweep_flag_selects_the_direction.
 
 (* non-vacuity: a quarter-turn segment meets the angle premise *)
 Example C12_nonvacuous : Rabs (PI / 2) <= seg_angle_max.
